@@ -104,7 +104,7 @@ def markers_of(doc):
 
 def expected_marker(binder):
     if binder["kind"] == "decl":
-        return {"m1": "d", "g": "u", "h": "q"}.get(binder["m"])
+        return {"m1": "d", "g": "u", "h": "q", "k": "k"}.get(binder["m"])
     if binder["kind"] == "param":
         return "p"
     if binder["kind"] == "rec":
@@ -161,7 +161,7 @@ def run(tier):
     # written relative to the importing module; beside the main module sit decoys under the names of the moved modules,
     # which no module imports)
     passes = []
-    LIB = {"g": "lib/g", "h": "lib/h"}
+    LIB = {"g": "lib/g", "h": "lib/h", "k": "lib/k"}
     for layout, loaded in ((None, False), (LIB, False), (LIB, True)):
         rendered = []
         cases = []
@@ -191,7 +191,7 @@ def run(tier):
         if o.get("outcome") != "ok" or o["load"].get("result") == "panic":
             chk.violation("C08|resolve-crash", "resolve crashes on %r" % text[:100], dict(payload, obs=o))
             continue
-        spec_errs = [g["mods"][m]["err"] for m in ("g", "h", "m1") if g["mods"][m]["err"]]
+        spec_errs = [g["mods"][m]["err"] for m in ("k", "g", "h", "m1") if m in g["mods"] and g["mods"][m]["err"]]
         if o["load"]["result"] == "err":
             e = o["load"]["error"]
             kind = e.get("kind", e.get("class"))
